@@ -140,7 +140,7 @@ def value(domain: str, g: L.G) -> dict:
         if x == 1:
             return {'vt': 'date', 'v': date_value(g).isoformat()}
         if x == 2:
-            return {'vt': 'dec', 'v': str(abs(decimal_value(g)))}
+            return {'vt': 'dec', 'v': str(decimal_value(g).copy_abs())}
         if x == 3:
             return {'vt': 'bool', 'v': g.p(0.5)}
         return {'vt': 'donor', 'v': make(g.pick(['ACCOUNT', 'amount']), g)}
@@ -214,10 +214,16 @@ def decimal_value(g: L.G) -> decimal.Decimal:
         d = decimal.Decimal(g.n(0, 10 ** 12))
     elif x < 0.7:
         d = decimal.Decimal(g.n(1, 999)) / (10 ** g.n(5, 10))  # small: str() would use exponent notation
-    elif x < 0.75:
+    elif x < 0.73:
         d = decimal.Decimal('0')
+    elif x < 0.77:
+        # more significant digits than the default decimal context keeps (28): exact values, no arithmetic on them
+        d = decimal.Decimal(g.pick(['12345678901234567890.123456789012', '123456789012345678901234567890', '0.1234567890123456789012345678901',
+                                    '1.00000000000000000000000000050', '99999999999999999999999999999.99']))
     else:
         d = decimal.Decimal(g.n(0, 9999)).scaleb(-g.n(0, 3))
-    if g.p(0.3):
-        d = -d
+    if g.p(0.3) and len(d.as_tuple().digits) <= 28:
+        # (a negative number is spelt with a unary minus, whose evaluation is decimal arithmetic and rounds to the context precision:
+        # exact read-back of more than 28 digits is only claimed for unsigned values)
+        d = d.copy_negate()
     return d
